@@ -1,2 +1,27 @@
-(* placeholder until the history machine is extracted *)
-let run_case (k : string) (_ : string list) : string list = failwith ("unknown case kind " ^ k)
+(* temporary: one-shot ops only *)
+open Model
+open Bytespec
+let platform_of = function
+  | "portable" -> sim_platform (n_of_int 1) (n_of_int 16)
+  | "sse2" | "sse41" -> sim_platform (n_of_int 4) (n_of_int 16)
+  | "avx2" -> sim_platform (n_of_int 8) (n_of_int 16)
+  | "avx512" | "detect" -> sim_platform (n_of_int 16) (n_of_int 16)
+  | s -> failwith ("platform " ^ s)
+let res_hex = function
+  | Ok h -> hex_of_nlist h
+  | Panic c -> if debug_only c then "PANIC_DBG" else "PANIC"
+  | OutOfFuel -> "OUTOFFUEL"
+let run_case (k : string) (toks : string list) : string list =
+  match toks with
+  | "H" :: mode :: plat :: ops ->
+    let p = platform_of plat in
+    List.map (fun op -> match String.split_on_char ':' op with
+      | ["oh"; b] ->
+        (match String.split_on_char '=' mode with
+         | ["hash"] -> res_hex (rs_hash p (parse b))
+         | ["keyed"; k] -> res_hex (rs_keyed_hash p (parse k) (parse b))
+         | ["derive"; c] | ["derivek"; c] -> res_hex (rs_derive_key p (parse c) (parse b))
+         | _ -> failwith "mode")
+      | ["sh"; b] -> hex_of_nlist (b3_hash (parse b))
+      | _ -> failwith ("op " ^ op)) ops
+  | _ -> failwith ("unknown case kind " ^ k)
